@@ -1019,6 +1019,17 @@ static carquet_status_t load_next_page_mmap(
     int32_t num_values = page_header.data_page_header.num_values;
     size_t value_size = get_value_size(reader->type, reader->type_length);
 
+    /* A data page without values is legal: nothing to decode, the caller
+     * steps over it. */
+    if (num_values == 0) {
+        reader->page_loaded = true;
+        reader->page_num_values = 0;
+        reader->page_values_read = 0;
+        reader->page_header_size = (int32_t)header_size;
+        reader->page_compressed_size = page_header.compressed_page_size;
+        return CARQUET_OK;
+    }
+
     /* Check if zero-copy is possible */
     bool zero_copy_eligible = carquet_page_is_zero_copy_eligible(
         col_meta->codec,
@@ -1267,6 +1278,18 @@ static carquet_status_t load_next_page_fread(
         }
     }
 
+    /* A data page without values is legal (a writer may flush between two
+     * rows): nothing to decode, the caller steps over it. */
+    if (page_header.data_page_header.num_values == 0) {
+        free(compressed);
+        reader->page_loaded = true;
+        reader->page_num_values = 0;
+        reader->page_values_read = 0;
+        reader->page_header_size = (int32_t)header_size;
+        reader->page_compressed_size = page_header.compressed_page_size;
+        return CARQUET_OK;
+    }
+
     /* Decompress if needed */
     uint8_t* page_data;
     size_t page_size;
@@ -1421,8 +1444,10 @@ carquet_status_t carquet_read_next_page(
         return CARQUET_ERROR_INVALID_ARGUMENT;
     }
 
-    /* Load a new page if needed */
-    if (!reader->page_loaded || reader->page_values_read >= reader->page_num_values) {
+    /* Load a new page if needed. Pages without values are stepped over; every
+     * round advances the page offset, so the loop ends at the latest when the
+     * offset leaves the file and the load fails. */
+    while (!reader->page_loaded || reader->page_values_read >= reader->page_num_values) {
         /* If we had a previous page, advance past it */
         if (reader->page_loaded) {
             reader->current_page += reader->page_header_size + reader->page_compressed_size;
